@@ -33,6 +33,7 @@ PodH0(p) == PodTable[p].h0
 PodH1(p) == PodTable[p].h1
 PodPM(p) == PodTable[p].pm
 PodAM(p) == PodTable[p].am
+PodAft(p) == PodTable[p].aft        \* an afternoon part of day (hour 0 next to it is the hour after noon, not midnight)
 
 MkTime(y, m, d, H, M, w, p) ==
   [k |-> "T", y |-> y, m |-> m, d |-> d, H |-> H, M |-> M, w |-> w, p |-> p]
